@@ -422,8 +422,15 @@ def minimise(chk, case, sig, tmpdir, rounds=12):
         cuts = [(i, i + 1) for i in range(n)]
         for size in sorted({n // 2, n // 3, n // 4, n // 8} - {0, 1}):
             cuts += [(i, min(n, i + size)) for i in range(0, n - 1, max(1, size // 2))]
-        for i, j in cuts:
-            o = ops[:i] + ops[j:]
+        outs = [ops[:i] + ops[j:] for i, j in cuts]
+        stack = []
+        for i, x in enumerate(ops):                 # a capture block's begin and end together
+            if x["k"] == "begin":
+                stack.append(i)
+            elif x["k"] == "end" and stack:
+                b = stack.pop()
+                outs.append([y for m, y in enumerate(ops) if m not in (b, i)])
+        for o in outs:
             d = 0
             ok = True
             for x in o:                       # keep capture blocks balanced
@@ -444,7 +451,8 @@ def minimise(chk, case, sig, tmpdir, rounds=12):
         if nxt is None:
             break
         cur = nxt
-    return cur
+    used = {str(i) for o in cur["ops"] for i in o.get("ch", [])}
+    return dict(cur, chunks={i: c for i, c in cur["chunks"].items() if i in used})
 
 
 def residual(case, sig, step):
@@ -499,7 +507,7 @@ def judge_batch(chk, todo, tmpdir, rnd, state):
             continue
         sig, step = signature(case, v)
         payload = dict(cfg=case["cfg"], chunks=case["chunks"], ops=case["ops"][:step] if step else case["ops"])
-        if sig not in firsts and len(firsts) < 4 and not chk.replay_only and v != "no-verdict":
+        if sig not in firsts and len(firsts) < 6 and not chk.replay_only and v != "no-verdict":
             small = minimise(chk, payload, sig, tmpdir)
             firsts[sig] = small
             _, sraw = execute(dict(small), tmpdir)
@@ -545,7 +553,7 @@ def _run(chk, tmpdir):
     else:
         # ---- M1 ------------------------------------------------------------------------------
         # (C15_SKIP_M1=1: mutation runs against a scratch tree skip the part that does not touch the tree)
-        runs = [] if os.environ.get("C15_SKIP_M1") else [("full", chk.pick(3, 4), ["none", "truecolor"], ACTIONS), ("core", chk.pick(5, 6), ["truecolor"], CORE_ACTIONS)]
+        runs = [] if os.environ.get("C15_SKIP_M1") else [("full", chk.pick(3, 4), ["none", "truecolor"], ACTIONS), ("core", chk.pick(4, 6), ["truecolor"], CORE_ACTIONS)]
         if chk.thorough:
             runs.append(("full", 3, CSS, ACTIONS))
         if os.environ.get("C15_SKIP_M1"):
@@ -577,7 +585,7 @@ def _run(chk, tmpdir):
         cases += [from_tlc(b) for b in behs + sims]
         chk.notes["tlc_generated_histories"] = len(cases)
         chk.mark("M2")
-        for i in range(chk.pick(1200, 20000)):
+        for i in range(chk.pick(800, 20000)):
             cases.append(random_case(chk.rng, chk.pick(16, 30) if i % 4 else 30))
     # ---- M3 (in batches: a history is ~20 kB of JSON) ----------------------------------------------
     state = dict(firsts={}, drifts={}, njudged=0, first_raws=None)
